@@ -424,11 +424,12 @@ def gen_scenario(rng):
                         a_ = dict(assets[i])
                         a_['amount'] = str(amts[i])
                         decl.append(a_)
-                    decl[j] = {'native': 'ujunk', 'amount': str(amts[j])}
+                    jd = junk_denom(rng, assets[j]['native']) if 'native' in assets[j] else 'ujunk'
+                    decl[j] = {'native': jd, 'amount': str(amts[j])}
                     if rng.random() < 0.5:
                         decl.reverse()
                     st['assets'] = decl
-                    f_ = {'ujunk': str(amts[j])}
+                    f_ = {jd: str(amts[j])}
                     for i in nat:
                         if i != j:
                             f_[assets[i]['native']] = str(amts[i])
@@ -499,6 +500,13 @@ def gen_key_cases(rng, budget):
         except Exception:
             pass
     out = []
+    # long identifiers (256 bytes and more) with a shared prefix: a length prefix narrower than the identifier length would collide here
+    for n in (255, 256, 300):
+        pz = 'p' * n
+        for (a1, b1, a2, b2) in (('aaa', pz + '\x01c', 'aaa\x01' + pz, 'c'), ('q' * (n + 1), 'r', 'q', 'q' * n + '\x00r')):
+            for (x, y) in ((a1, b1), (a2, b2)):
+                out.append(dict(kind='pair_key', a={'n': x}, b={'n': y}))
+                out.append(dict(kind='pair_key', a={'n': y}, b={'n': x}))
     for _ in range(budget):
         a, b = rng.choice(ids), rng.choice(ids)
         out.append(dict(kind='pair_key', a=a, b=b))
